@@ -261,6 +261,9 @@ def translate(repo_root):
 def gen_poll(ctx):
     from harness import sim_race as _sr
 
+    for fut in ("none", "running", "done-ok", "done-exc"):
+        for exc in (["RuntimeError"] + _sr.FAULT_CLASSES[:6] if fut == "done-exc" else [None]):
+            yield {"actor": "task-executor", "future": fut, "exc": exc}
     for sd in (False, True):
         for cancel in (False, True):
             for fut in ("none", "running", "done-ok", "done-exc"):
@@ -269,7 +272,55 @@ def gen_poll(ctx):
                         yield {"start_driving": sd, "cancel": cancel, "future": fut, "samples": samples, "exc": exc}
 
 
+def _future_of(case):
+    from harness import sim_race
+
+    if case["future"] == "none":
+        return None
+    fut = sim_race.SimFuture()
+    if case["future"] != "running":
+        fut._done = True
+        if case["future"] == "done-exc":
+            import importlib
+
+            mod, _, name = case["exc"].rpartition(".")
+            cls = getattr(importlib.import_module(mod), name) if mod else getattr(__import__("builtins"), name)
+            fut._exc = cls("injected")
+    return fut
+
+
+def run_poll_task_executor(ctx, case):
+    import logging
+
+    from esrally.driver import driver
+
+    te = object.__new__(driver.TaskExecutionActor)
+    acts = []
+    fut = _future_of(case)
+
+    def note_state():
+        if fut is not None and te.executor_future is None and "clear-future" not in acts:
+            acts.append("clear-future")
+
+    def send(dst, m):
+        note_state()
+        acts.append({"BenchmarkFailure": "send-failure", "ReadyForWork": "send-ready"}.get(type(m).__name__, "send:" + type(m).__name__))
+
+    te.__dict__.update(executor_future=fut, wakeup_interval=5, task_preparation_actor="prep", logger=logging.getLogger("esrally.driver.driver"), send=send,
+                       wakeupAfter=lambda *a, **k: (note_state(), acts.append("rearm")))
+    driver.TaskExecutionActor.receiveMsg_WakeupMessage(te, object(), "self")
+    note_state()
+    m = ctx.model("racectl", "poll-task-executor", {"future": case["future"]})
+    if m["r"] != acts:
+        ctx.diff("what one wake-up of the task executor does", m["r"], acts)
+    if case["future"] == "done-exc" and acts != ["send-failure"]:
+        ctx.fail("poll:preparation-failure-not-reported", "a task executor whose task failed did not just report BenchmarkFailure", ["send-failure"], acts)
+    ctx.sig(["poll-task-executor", m.get("tags")], nontrivial=True)
+
+
 def run_poll(ctx, case):
+    if case.get("actor") == "task-executor":
+        return run_poll_task_executor(ctx, case)
     import logging
     import threading
 
@@ -343,5 +394,5 @@ def run_poll(ctx, case):
 
 STREAMS = [
     Stream("faulted_races", gen, run, quick=800, thorough=100000, shards=16),
-    Stream("worker_poll_table", gen_poll, run_poll, quick=80, thorough=80, shards=1, exhaustive_thorough=True),
+    Stream("worker_poll_table", gen_poll, run_poll, quick=90, thorough=90, shards=1, exhaustive_thorough=True),
 ]
